@@ -457,10 +457,24 @@ def make_pdb_twins(src, complete, stripped, numbers=(5, 30, 60)):
     incomplete in the other - the two files are read in one interpreter, in both orders."""
     a, b = [], []
     with open(src) as f:
-        for line in f:
+        text = f.readlines()
+    # ... plus the first two uridines, which also become 4-thiouridines (O4 -> S4: by its atoms such a residue is
+    # as much a C as a U, so the detected letter rests on a tie-break)
+    uri = []
+    for line in text:
+        if line.startswith(("ATOM", "HETATM")) and line[17:20].strip() == "U" and line[22:26].strip().isdigit():
+            n = int(line[22:26])
+            if n not in uri and n not in numbers:
+                uri.append(n)
+    uri = uri[:2]
+    numbers = tuple(numbers) + tuple(uri)
+    if True:
+        for line in text:
             if line.startswith(("ATOM", "HETATM")) and line[22:26].strip().lstrip("-").isdigit() \
                     and int(line[22:26]) in numbers:
                 line = line[:17] + "XYP" + line[20:]
+                if int(line[22:26]) in uri and line[12:16].strip() == "O4":
+                    line = line[:12] + " S4 " + line[16:76] + " S" + line[78:]
                 name = line[12:16].strip()
                 a.append(line)
                 if not (BASE_LIKE.match(name) and name not in ("P", "OP1", "OP2", "OP3")):
